@@ -438,6 +438,14 @@ func oracleFor(op *Sexp, res string) []string {
 		if res != "ok same" {
 			bad("registering a codec after a failed first use: %s", res)
 		}
+	case "jdescdeep":
+		var outLen, inLen int
+		if _, err := fmt.Sscanf(res, "ok %d %d", &outLen, &inLen); err != nil {
+			return []string{"descriptor walk of nested arrays: " + res}
+		}
+		if outLen > 64*inLen+4096 {
+			bad("F22 the JSON rendering of %d input bytes (arrays nested %s deep) is %d bytes: every line is indented by its depth, so output and memory grow with the square of the nesting depth", inLen, arg(1), outLen)
+		}
 	case "entriespresent":
 		// never more than it was told, never more than one per byte of the body
 		d, _ := unhx(arg(1))
